@@ -22,6 +22,7 @@ import (
 
 	"github.com/google/pprof/internal/binutils"
 	"github.com/google/pprof/internal/driver"
+	"github.com/google/pprof/internal/plugin"
 	"github.com/google/pprof/internal/verifrt"
 	"github.com/google/pprof/profile"
 	"github.com/google/pprof/verifh/ap"
@@ -246,6 +247,29 @@ func Scenarios() []Scenario {
 			}
 		}
 		return []func() string{op(0x1000), op(0x2000), op(0x3000)}, nil
+	}})
+	// S7: three different sources fetched in parallel by one invocation: whichever fetch finishes first,
+	// the merged profile is the one obtained when they finish in command-line order
+	out = append(out, Scenario{Name: "S7/parallel-fetch", MaxPreempt: 1, Setup: func() ([]func() string, func() string) {
+		prof := map[string]func() *profile.Profile{}
+		var names []string
+		for i := 0; i < 3; i++ {
+			a := &ap.AP{Types: []ap.VT{{Type: "n", Unit: "count"}}, Maps: enum.Maps2[:1], Period: 1, Comments: []string{fmt.Sprint("c", i)}}
+			l := ap.Loc{Addr: 0x1010 + uint64(i)*0x10, Map: 0, Lines: []ap.Line{{Func: fmt.Sprint("f", i), File: "f.go", Line: int64(i + 1)}}}
+			a.Stacks = []ap.Stack{{Locs: []ap.Loc{l}, Values: []int64{int64(i + 1)}}}
+			n := fmt.Sprint("s", i)
+			names = append(names, n)
+			prof[n] = func() *profile.Profile { return ap.Concretize(a, ap.Opts{}) } // pre-parsed: few scheduling points per fetch
+		}
+		op := func() string {
+			f := &drive.Fetcher{Prof: prof, Hook: func(src string) { verifrt.Yield("fetch " + src) }, After: func(src string) { verifrt.Yield("fetched " + src) }}
+			p, err := driver.VerifFetchProfiles(names, nil, false, false, &plugin.Options{Fetch: f, UI: &drive.UI{}, Sym: drive.NopSym{}, Obj: drive.NoObj{}, Flagset: drive.MkFlags(names), Writer: &drive.Writer{}})
+			if err != nil {
+				return "err " + err.Error()
+			}
+			return fmt.Sprintf("%x", drive.Encode(p))
+		}
+		return []func() string{op}, nil
 	}})
 	out = append(out, webScenarios()...)
 	return out
